@@ -604,3 +604,4 @@ PROPS["C13"]["rule"] += (" One case in six continues with a 'self-binding' seque
 PROPS["C16"]["rule"] += (" crolt part: a third of the jobs are slow (their HTTP request, answered by a fake transport without network, "
                          "takes 200 ms of virtual time inside the firing loop's transaction), and Delete requests also arrive while a "
                          "pass of the firing loop is running.")
+PROPS["C09"]["rule"] += " A 'bulk' operation stores 20-70 facts in one location at once, so that inherited results exceed 64 entries."
